@@ -10,3 +10,8 @@ package sign
 //@   requires r.PublicKey != nil && r.BigR != nil
 //@   assert_at[C01] ResultRound "return r.ResultRound(signature)": ecdsa_valid(signature.R, signature.S, r.PublicKey, r.Message)
 //@   assert_at[C01] ResultRound "return r.ResultRound(signature)": typeis(arg1, *ecdsa.Signature) && arg1.(*ecdsa.Signature) == signature
+
+// ---- start function (C20)
+//@ func StartSign$1
+//@   nopanic[C20]
+//@   ensures[C20] len(message) == 0 ==> result1 != nil
